@@ -406,6 +406,31 @@ pub fn gen_plan(rng: &mut Rng, prof: &Profile, thorough: bool) -> Plan {
         uid += 1;
         next_id += 1;
     }
+    // metadata that is *almost* a trampoline request: a valid invoice record followed by a
+    // truncated trailing record. It is not a valid TLV stream, hence unusable: continue.
+    if matches!(prof, Profile::PassThrough | Profile::Classify | Profile::Mixed | Profile::Hostile) && rng.chance(1, 3) {
+        let cands: Vec<usize> = (0..htlcs.len()).filter(|k| matches!(&htlcs[*k].metadata, Metadata::Tramp { invoice, .. } if invoice.payee.is_some() && invoice.amount_msat.is_some())).collect();
+        if !cands.is_empty() {
+            let src = htlcs[*rng.pick(&cands)].clone();
+            if let Metadata::Tramp { invoice, .. } = &src.metadata {
+                let mut raw = enc_stream(&[(33001, invoice.bolt11.as_bytes().to_vec())]);
+                // type 40001, declared length 16, only 0-3 bytes present
+                put_bigsize(&mut raw, 40001);
+                raw.push(16);
+                raw.extend(rng.rbytes(4));
+                let mut x = src.clone();
+                x.uid = uid;
+                x.htlc_id = next_id;
+                x.gate = Gate::None;
+                // same payment hash as the invoice (otherwise the hash check alone would pass it on)
+                x.metadata = Metadata::Raw(raw);
+                x.label = RefLabel::Continue;
+                htlcs.push(x);
+                uid += 1;
+                next_id += 1;
+            }
+        }
+    }
     // non-trampoline traffic
     let n_plain = match prof {
         Profile::PassThrough => 3 + rng.below(4) as usize,
